@@ -457,6 +457,16 @@ HOST_POOL = [
     ("mode_ok", "type T = aff 1\nlet g(x : T) : aff 1 = drop x; close self\n", "async", True),
     ("mode_bad", "type T = lin 1\nlet g(x : T) : lin 1 = drop x; close self\n", "async", True),
     ("ok_same_proc_names", "prc[a] : 1 = print other_a; close self\nprc[m] : 1 = wait a; print other_m; close self\n", "sync", True),
+    # the same type NAME with opposite polarities, used where the interpreter looks the polarity of a named type up at run time (a dropped channel,
+    # a free name of a duplicated process): nothing learnt about B in one run may be used in the next
+    ("pol_pos", "type B = aff 1\nlet mk() : B = print mkpos; close self\nprc[m] : lin 1 = y <- new mk(); drop y; print pos_done; close self\n", "async", True),
+    ("pol_neg", "type B = rep &{ping : 1}\nlet srv() : B = case self ( ping<c> => print pong; close c )\n"
+                "let client(y : B) : rep 1 = z : rep 1 <- new y.ping<self>; wait z; print done; close self\n"
+                "prc[y] : B = srv()\nprc[a, b] : rep 1 = client(y)\nprc[m] : rep 1 = wait a; wait b; print fin; close self\n", "async", True),
+    ("pol_negdrop", "type B = aff &{ping : 1}\nlet srv() : B = case self ( ping<c> => print pong; close c )\n"
+                    "prc[m] : lin 1 = y <- new srv(); drop y; print dropped; close self\n", "async", True),
+    ("pol_possync", "type B = rep 1\nlet mk() : B = print mk; close self\nlet use(y : B) : rep 1 = wait y; print used; close self\n"
+                    "prc[y] : B = mk()\nprc[a, b] : rep 1 = use(y)\nprc[m] : rep 1 = wait a; wait b; print fin; close self\n", "sync", True),
 ]
 
 
